@@ -1,5 +1,461 @@
 /- helper lemmas for the cost theorems (C11) -/
 import MelModel.VM.Exec
 namespace Mel.VM
-open Mel
+open Mel Mel.Gen
+
+/-! ## the weight table -/
+
+theorem opWeight_pos (op : Op) : 1 ≤ opWeight op := by
+  cases op <;>
+    simp only [opWeight, wNoop, wAdd, wSub, wMul, wDiv, wRem, wAnd, wOr, wXor, wNot, wEql, wLt,
+      wGt, wShl, wShr, wStore, wLoad, wStoreImm, wLoadImm, wVRef, wVAppend, wVEmpty, wVLength,
+      wVSlice, wVSet, wVPush, wVCons, wBRef, wBAppend, wBEmpty, wBLength, wBSlice, wBSet, wBPush,
+      wBCons, wBez, wBnz, wJmp, wItoB, wBtoI, wTypeQ, wPushB, wPushI, wPushIC, wDup, wExpBase,
+      wExpPerBit, wHashBase, wSigEOkBase, wLoopExtra] <;> omega
+
+/-! ## `weightU` does not depend on the fuel -/
+
+theorem weightUF_fuel_indep : ∀ (f1 f2 : Nat) (l : List Op),
+    l.length < f1 → l.length < f2 → weightUF f1 l = weightUF f2 l := by
+  intro f1
+  induction f1 with
+  | zero => intro f2 l h; omega
+  | succ f1 ih =>
+    intro f2 l h1 h2
+    cases f2 with
+    | zero => omega
+    | succ f2 =>
+      cases l with
+      | nil => simp [weightUF]
+      | cons op rest =>
+        simp only [List.length_cons] at h1 h2
+        simp only [weightUF]
+        rw [ih f2 rest (by omega) (by omega)]
+        cases op
+        case loop it n =>
+          simp only
+          rw [ih f2 (rest.take n.toNat) (by simp only [List.length_take]; omega)
+            (by simp only [List.length_take]; omega)]
+        all_goals rfl
+
+/-- car weight (`opcodes_car_weight`) in terms of `weightU` -/
+def carU (op : Op) (rest : List Op) : Nat :=
+  match op with
+  | .loop it n => weightU (rest.take n.toNat) * it.toNat + wLoopExtra
+  | op => opWeight op
+
+@[simp] theorem weightU_nil : weightU [] = 0 := by simp [weightU, weightUF]
+
+theorem weightU_cons (op : Op) (rest : List Op) :
+    weightU (op :: rest) = carU op rest + weightU rest := by
+  unfold weightU
+  simp only [List.length_cons, weightUF]
+  cases op
+  case loop it n =>
+    simp only [carU, weightU]
+    rw [weightUF_fuel_indep (rest.length + 1) ((rest.take n.toNat).length + 1) (rest.take n.toNat)
+      (by simp only [List.length_take]; omega) (by omega)]
+  all_goals rfl
+
+theorem opWeight_le_carU (op : Op) (rest : List Op) : opWeight op ≤ carU op rest := by
+  cases op
+  case loop it n => simp only [carU, opWeight]; omega
+  all_goals exact Nat.le_refl _
+
+theorem carU_pos (op : Op) (rest : List Op) : 1 ≤ carU op rest :=
+  Nat.le_trans (opWeight_pos op) (opWeight_le_carU op rest)
+
+theorem weightU_drop_le (l : List Op) (k : Nat) : weightU (l.drop k) ≤ weightU l := by
+  induction k generalizing l with
+  | zero => simp
+  | succ k ih =>
+    cases l with
+    | nil => simp
+    | cons op rest =>
+      rw [List.drop_succ_cons, weightU_cons]
+      exact Nat.le_trans (ih rest) (Nat.le_add_left _ _)
+
+/-! ## window weights -/
+
+/-- weight of the window `[a, b)` of the program (clipped to the program) -/
+def winW (ops : List Op) (a b : Nat) : Nat := weightU ((ops.take b).drop a)
+
+theorem winW_eq_zero (ops : List Op) {a b : Nat} (h : b ≤ a) : winW ops a b = 0 := by
+  unfold winW
+  rw [List.drop_eq_nil_of_le (by simp only [List.length_take]; omega)]
+  exact weightU_nil
+
+theorem winW_anti (ops : List Op) {a a' : Nat} (b : Nat) (h : a ≤ a') :
+    winW ops a' b ≤ winW ops a b := by
+  unfold winW
+  have : (ops.take b).drop a' = ((ops.take b).drop a).drop (a' - a) := by
+    rw [List.drop_drop]; congr 1; omega
+  rw [this]
+  exact weightU_drop_le _ _
+
+theorem winW_clip (ops : List Op) (a b : Nat) : winW ops a (min b ops.length) = winW ops a b := by
+  unfold winW
+  congr 1
+  rw [← List.take_take, List.take_length]
+
+theorem winW_unfold (ops : List Op) {a b : Nat} (hab : a < b) (ha : a < ops.length) :
+    winW ops a b = carU ops[a] ((ops.take b).drop (a + 1)) + winW ops (a + 1) b := by
+  unfold winW
+  have hlen : a < (ops.take b).length := by simp only [List.length_take]; omega
+  rw [List.drop_eq_getElem_cons hlen, weightU_cons]
+  simp [List.getElem_take]
+
+theorem winW_ge_succ (ops : List Op) {a b : Nat} (hab : a < b) (ha : a < ops.length) :
+    1 + winW ops (a + 1) b ≤ winW ops a b := by
+  rw [winW_unfold ops hab ha]
+  have := carU_pos ops[a] ((ops.take b).drop (a + 1))
+  omega
+
+theorem winW_loop (ops : List Op) {a b : Nat} (hab : a < b) (ha : a < ops.length)
+    {it n : UInt16} (hop : ops[a] = Op.loop it n) :
+    winW ops a b =
+      winW ops (a + 1) (min (a + 1 + n.toNat) b) * it.toNat + wLoopExtra + winW ops (a + 1) b := by
+  rw [winW_unfold ops hab ha, hop]
+  simp only [carU, winW]
+  rw [List.take_drop, List.take_take]
+
+/-- strict decrease of the window weight when moving past an executable instruction -/
+theorem winW_lt (ops : List Op) {a a' b : Nat} (hab : a < b) (ha : a < ops.length) (h : a < a') :
+    1 + winW ops a' b ≤ winW ops a b := by
+  have h1 := winW_ge_succ ops hab ha
+  have h2 := winW_anti ops b (show a + 1 ≤ a' by omega)
+  omega
+
+/-! ## the potential -/
+
+/-- potential of a machine state: an upper bound on the number of steps still to be executed -/
+def phi (ops : List Op) (pc : Nat) : List LoopState → Nat
+  | [] => winW ops pc ops.length
+  | st :: rest =>
+    winW ops pc (st.end_ + 1) + st.left * winW ops st.begin_ (st.end_ + 1)
+      + phi ops (max pc (st.end_ + 1)) rest
+
+theorem phi_anti (ops : List Op) (loops : List LoopState) {p p' : Nat} (h : p ≤ p') :
+    phi ops p' loops ≤ phi ops p loops := by
+  induction loops generalizing p p' with
+  | nil => exact winW_anti ops _ h
+  | cons st rest ih =>
+    simp only [phi]
+    have h1 := winW_anti ops (st.end_ + 1) h
+    have h2 := ih (p := max p (st.end_ + 1)) (p' := max p' (st.end_ + 1)) (by omega)
+    omega
+
+/-- moving the pc forward from an executable position strictly decreases the potential -/
+theorem phi_lt (ops : List Op) (loops : List LoopState) {p p' : Nat} (hp : p < ops.length)
+    (h : p < p') : 1 + phi ops p' loops ≤ phi ops p loops := by
+  induction loops generalizing p p' with
+  | nil => exact winW_lt ops hp hp h
+  | cons st rest ih =>
+    simp only [phi]
+    by_cases hpe : p < st.end_ + 1
+    · have h1 := winW_lt ops hpe hp h
+      have h2 := phi_anti ops rest (p := max p (st.end_ + 1)) (p' := max p' (st.end_ + 1))
+        (by omega)
+      omega
+    · have h1 := winW_anti ops (st.end_ + 1) (Nat.le_of_lt h)
+      have e1 : max p (st.end_ + 1) = p := by omega
+      have e2 : max p' (st.end_ + 1) = p' := by omega
+      rw [e1, e2]
+      have h2 := ih hp h
+      omega
+
+theorem phi_pos (ops : List Op) (loops : List LoopState) {p : Nat} (hp : p < ops.length) :
+    1 ≤ phi ops p loops := by
+  have := phi_lt ops loops hp (Nat.lt_succ_self p)
+  omega
+
+/-- `update_pc_state` never increases the potential -/
+theorem phi_updatePc (ops : List Op) (pc : Nat) (loops : List LoopState) :
+    phi ops (updatePc pc loops).1 (updatePc pc loops).2 ≤ phi ops pc loops := by
+  induction loops with
+  | nil => simp [updatePc]
+  | cons st rest ih =>
+    simp only [updatePc]
+    split
+    · rename_i hgt
+      split
+      · rename_i hk
+        simp only [phi]
+        have e1 : max pc (st.end_ + 1) = st.end_ + 1 := by omega
+        rw [e1]
+        have h0 : winW ops pc (st.end_ + 1) = 0 := winW_eq_zero ops (by omega)
+        have h2 := phi_anti ops rest (p := st.end_ + 1) (p' := max st.begin_ (st.end_ + 1))
+          (by omega)
+        have h3 : st.left * winW ops st.begin_ (st.end_ + 1) =
+            winW ops st.begin_ (st.end_ + 1) + (st.left - 1) * winW ops st.begin_ (st.end_ + 1) := by
+          obtain ⟨k, hk'⟩ : ∃ k, st.left = k + 1 := ⟨st.left - 1, by omega⟩
+          rw [hk']; simp only [Nat.add_sub_cancel, Nat.succ_mul]; omega
+        omega
+      · simp only [phi]
+        have e1 : max pc (st.end_ + 1) = pc := by omega
+        rw [e1]
+        omega
+    · exact Nat.le_refl _
+
+/-! ## one instruction -/
+
+theorem bind_ok_some {x : Option (List Value)} {st st' : Exec}
+    (h : (x.bind fun s => some { st with stack := s, pc := st.pc + 1 }) = some st') :
+    st'.loops = st.loops ∧ st.pc < st'.pc := by
+  cases x with
+  | none => simp at h
+  | some s => simp at h; subst h; simp
+
+/-- what `execOp` does to the pc and the loop stack -/
+theorem execOp_cases {o : Oracles} {op : Op} {st st' : Exec} (h : execOp o op st = some st') :
+    (st'.loops = st.loops ∧ st.pc < st'.pc) ∨
+    (∃ it n, op = .loop it n ∧ 0 < it.toNat ∧ st'.pc = st.pc + 1 ∧
+      st'.loops = { begin_ := st.pc + 1, end_ := st.pc + 1 + n.toNat - 1, left := it.toNat - 1 }
+        :: st.loops ∧
+      (∀ last tl, st.loops = last :: tl → st.pc + 1 + n.toNat - 1 ≤ last.end_)) := by
+  cases op
+  case loop it n =>
+    simp only [execOp] at h
+    split at h
+    · rename_i hit
+      right
+      refine ⟨it, n, rfl, hit, ?_⟩
+      split at h
+      · rename_i last tl hl
+        split at h
+        · simp at h
+        · rename_i hle
+          simp only [Option.some.injEq] at h
+          subst h
+          refine ⟨rfl, by simp, ?_⟩
+          intro last' tl' hl'
+          rw [hl] at hl'
+          simp only [List.cons.injEq] at hl'
+          rw [← hl'.1]
+          omega
+      · rename_i hl
+        simp only [Option.some.injEq] at h
+        subst h
+        refine ⟨rfl, by simp [hl], ?_⟩
+        intro last' tl' hl'
+        rw [hl] at hl'
+        simp at hl'
+    · left
+      simp only [Option.some.injEq] at h
+      subst h
+      simp
+      omega
+  all_goals
+    left
+    simp only [execOp] at h
+    first
+      | exact bind_ok_some h
+      | (simp only [Option.some.injEq] at h; subst h; simp; done)
+      | (simp only [Option.some.injEq] at h; subst h; simp; omega)
+      | skip
+  case store =>
+    split at h
+    · simp at h
+      obtain ⟨a, _, rfl⟩ := h
+      simp
+    · simp at h
+  case storeimm i =>
+    split at h
+    · simp only [Option.some.injEq] at h; subst h; simp
+    · simp at h
+  case dup =>
+    split at h
+    · simp only [Option.some.injEq] at h; subst h; simp
+    · simp at h
+  case load =>
+    split at h
+    · rename_i a rest _
+      exact bind_ok_some (x := ((a.intoU16.bind fun addr => st.heap.get addr).map (· :: rest)))
+        (by rw [← h]; cases (a.intoU16.bind fun addr => st.heap.get addr) <;> rfl)
+    · simp at h
+  case loadimm i =>
+    exact bind_ok_some (x := ((st.heap.get i.toNat).map (· :: st.stack)))
+      (by rw [← h]; cases (st.heap.get i.toNat) <;> rfl)
+  case bez j =>
+    split at h
+    · split at h <;> (simp only [Option.some.injEq] at h; subst h; simp; try omega)
+    · simp at h
+  case bnz j =>
+    split at h
+    · split at h <;> (simp only [Option.some.injEq] at h; subst h; simp; try omega)
+    · simp at h
+
+theorem mul_pred_add (x k : Nat) (hk : 0 < k) : x + (k - 1) * x = x * k := by
+  obtain ⟨j, rfl⟩ : ∃ j, k = j + 1 := ⟨k - 1, by omega⟩
+  simp only [Nat.add_sub_cancel, Nat.mul_succ, Nat.mul_comm x j]
+  omega
+
+/-- a successful instruction body strictly decreases the potential -/
+theorem phi_execOp {o : Oracles} {ops : List Op} {st st' : Exec} (hpc : st.pc < ops.length)
+    (h : execOp o ops[st.pc] st = some st') :
+    1 + phi ops st'.pc st'.loops ≤ phi ops st.pc st.loops := by
+  rcases execOp_cases h with ⟨hl, hlt⟩ | ⟨it, n, hop, hit, hpc', hl', hchk⟩
+  · rw [hl]; exact phi_lt ops _ hpc hlt
+  · rw [hpc', hl']
+    simp only [phi]
+    have e : st.pc + 1 + n.toNat - 1 + 1 = st.pc + 1 + n.toNat := by omega
+    have e2 : max (st.pc + 1) (st.pc + 1 + n.toNat) = st.pc + 1 + n.toNat := by omega
+    rw [e, e2]
+    have hw := opWeight_pos (.loop it n)
+    simp only [opWeight] at hw
+    have hm := mul_pred_add (winW ops (st.pc + 1) (st.pc + 1 + n.toNat)) it.toNat hit
+    cases hloops : st.loops with
+    | nil =>
+      simp only [phi]
+      have h1 := winW_loop ops hpc hpc hop
+      rw [winW_clip] at h1
+      have h2 := winW_anti ops ops.length (show st.pc + 1 ≤ st.pc + 1 + n.toNat by omega)
+      omega
+    | cons last tl =>
+      have hle := hchk last tl hloops
+      simp only [phi]
+      have h1 := winW_loop ops (show st.pc < last.end_ + 1 by omega) hpc hop
+      have e3 : min (st.pc + 1 + n.toNat) (last.end_ + 1) = st.pc + 1 + n.toNat := by omega
+      have e4 : max (st.pc + 1 + n.toNat) (last.end_ + 1) = last.end_ + 1 := by omega
+      have e5 : max st.pc (last.end_ + 1) = last.end_ + 1 := by omega
+      rw [e3] at h1
+      rw [e4, e5]
+      have h2 := winW_anti ops (last.end_ + 1) (show st.pc + 1 ≤ st.pc + 1 + n.toNat by omega)
+      omega
+
+/-- a successful `step` strictly decreases the potential -/
+theorem phi_step {o : Oracles} {ops : List Op} {st st' : Exec} (hpc : st.pc < ops.length)
+    (h : step o ops st = some st') :
+    1 + phi ops st'.pc st'.loops ≤ phi ops st.pc st.loops := by
+  unfold step at h
+  rw [List.getElem?_eq_getElem hpc] at h
+  simp only at h
+  split at h
+  · simp at h
+  · rename_i st1 hex
+    simp only [Option.some.injEq] at h
+    subst h
+    have h1 := phi_execOp hpc hex
+    have h2 := phi_updatePc ops st1.pc st1.loops
+    simp only
+    omega
+
+/-- the number of steps executed from any state is bounded by its potential -/
+theorem runFuel_steps_le (o : Oracles) (ops : List Op) : ∀ (fuel : Nat) (st : Exec) (n : Nat),
+    (runFuel o ops fuel st n).2 ≤ n + phi ops st.pc st.loops := by
+  intro fuel
+  induction fuel with
+  | zero => intro st n; simp [runFuel]
+  | succ fuel ih =>
+    intro st n
+    simp only [runFuel]
+    split
+    · rename_i hpc
+      split
+      · have := phi_pos ops st.loops hpc
+        simp only
+        omega
+      · rename_i st' hs
+        have h1 := phi_step hpc hs
+        have h2 := ih st' (n + 1)
+        omega
+    · simp
+
+/-- fuel above the potential is never exhausted -/
+theorem runFuel_fuel_indep (o : Oracles) (ops : List Op) : ∀ (f1 f2 : Nat) (st : Exec) (n : Nat),
+    phi ops st.pc st.loops < f1 → phi ops st.pc st.loops < f2 →
+    runFuel o ops f1 st n = runFuel o ops f2 st n := by
+  intro f1
+  induction f1 with
+  | zero => intro f2 st n h; omega
+  | succ f1 ih =>
+    intro f2 st n h1 h2
+    cases f2 with
+    | zero => omega
+    | succ f2 =>
+      simp only [runFuel]
+      split
+      · rename_i hpc
+        split
+        · rfl
+        · rename_i st' hs
+          have h3 := phi_step hpc hs
+          exact ih f2 st' (n + 1) (by omega) (by omega)
+      · rfl
+
+theorem phi_init (ops : List Op) (heap : Heap) :
+    phi ops (initExec heap).pc (initExec heap).loops = weightU ops := by
+  simp [initExec, phi, winW]
+
+/-! ## saturation -/
+
+theorem min_mul_sat (a c M : Nat) : min (min a M * c) M = min (a * c) M := by
+  by_cases h : a ≤ M
+  · rw [Nat.min_eq_left h]
+  · have hM : M < a := by omega
+    rw [Nat.min_eq_right (Nat.le_of_lt hM)]
+    cases c with
+    | zero => simp
+    | succ c =>
+      have h1 : M ≤ M * (c + 1) := Nat.le_mul_of_pos_right _ (by omega)
+      have h2 : M * (c + 1) ≤ a * (c + 1) := Nat.mul_le_mul_right _ (Nat.le_of_lt hM)
+      omega
+
+theorem weightSF_eq (fuel : Nat) (l : List Op) :
+    weightSF fuel l = min (weightUF fuel l) U128_MAX := by
+  induction fuel generalizing l with
+  | zero => simp [weightSF, weightUF]
+  | succ fuel ih =>
+    cases l with
+    | nil => simp [weightSF, weightUF]
+    | cons op rest =>
+      simp only [weightSF, weightUF, ih rest]
+      cases op
+      case loop it n =>
+        simp only [ih (rest.take n.toNat), satAdd128, satMul128]
+        have := min_mul_sat (weightUF fuel (rest.take n.toNat)) it.toNat U128_MAX
+        omega
+      all_goals (simp only [satAdd128]; omega)
+
+/-! ## cost of weighing -/
+
+theorem weighWorkF_replicate (it : UInt16) : ∀ (f n : Nat), n < f → n ≤ 1001 →
+    weighWorkF f (List.replicate n (Op.loop it 1000)) + 1 = 2 ^ n := by
+  intro f
+  induction f with
+  | zero => intro n h; omega
+  | succ f ih =>
+    intro n h hn
+    cases n with
+    | zero => simp [weighWorkF]
+    | succ m =>
+      simp only [List.replicate_succ, weighWorkF]
+      have e : (List.replicate m (Op.loop it 1000)).take (1000 : UInt16).toNat
+          = List.replicate m (Op.loop it 1000) := by
+        rw [List.take_of_length_le]
+        simp only [List.length_replicate]
+        show m ≤ 1000
+        omega
+      rw [e]
+      have := ih m (by omega) (by omega)
+      rw [Nat.pow_succ]
+      omega
+
+/-- beyond 1001 stacked `Loop _ 1000` the body slice is clipped and the count stops doubling -/
+theorem weighWorkF_replicate_clipped (it : UInt16) (f k : Nat) (hk : k = 1000) (hf : k + 2 < f) :
+    weighWorkF f (List.replicate (k + 2) (Op.loop it 1000)) + 1 = 3 * 2 ^ k := by
+  obtain ⟨f', rfl⟩ : ∃ f', f = f' + 1 := ⟨f - 1, by omega⟩
+  simp only [List.replicate_succ (n := k + 1), weighWorkF]
+  have e : (List.replicate (k + 1) (Op.loop it 1000)).take (1000 : UInt16).toNat
+      = List.replicate k (Op.loop it 1000) := by
+    rw [List.take_replicate]
+    congr 1
+    show min 1000 (k + 1) = k
+    omega
+  rw [e]
+  have h0 := weighWorkF_replicate it f' k (by omega) (by omega)
+  have h1 := weighWorkF_replicate it f' (k + 1) (by omega) (by omega)
+  rw [Nat.pow_succ] at h1
+  omega
+
 end Mel.VM
